@@ -236,6 +236,7 @@ func ApplyEdit(g G, p *Project, d *verifsim.Disk, inPlace bool) string {
 		}
 		npk := *base
 		npk.Dir = dir
+		npk.Linked = false
 		npk.Version = base.Version + 100
 		npk.Deleted = false
 		p.Pkgs = append(p.Pkgs, &npk)
@@ -263,7 +264,14 @@ func ApplyEdit(g G, p *Project, d *verifsim.Disk, inPlace bool) string {
 	case EdPkgJSON:
 		if len(p.Pkgs) > 0 && g.n(2) == 0 {
 			pk := p.Pkgs[g.n(len(p.Pkgs))]
-			switch g.n(4) {
+			switch g.n(5) {
+			case 4:
+				// a linked package is pointed at another directory (the old one stays)
+				if pk.Linked {
+					pk.LinkVer++
+				} else {
+					pk.Version++
+				}
 			case 0:
 				pk.Type = []string{"", "module", "commonjs"}[g.n(3)]
 			case 1:
